@@ -38,14 +38,29 @@ thread_local! {
     static CALLS: Cell<[u64; NKINDS]> = const { Cell::new([0; NKINDS]) };
     static ARMED: Cell<Option<(Kind, u64)>> = const { Cell::new(None) };
     static INJECTED: Cell<u64> = const { Cell::new(0) };
+    static PAUSED: Cell<bool> = const { Cell::new(false) };
+    static FIRED: Cell<bool> = const { Cell::new(false) };
+}
+
+/// Stop counting and injecting (the operation under test is over; harness-owned values may now drop).
+pub fn fault_pause() {
+    PAUSED.with(|p| p.set(true));
+}
+/// Did the armed fault fire since it was armed?
+pub fn fault_fired() -> bool {
+    FIRED.with(|f| f.get())
 }
 
 pub fn fault_reset() {
     CALLS.with(|c| c.set([0; NKINDS]));
     ARMED.with(|a| a.set(None));
+    PAUSED.with(|p| p.set(false));
+    FIRED.with(|f| f.set(false));
 }
 /// Arm: the call number `k` (0-based, counted from now) of kind `kind` panics.
 pub fn fault_arm(kind: Kind, k: u64) {
+    PAUSED.with(|p| p.set(false));
+    FIRED.with(|f| f.set(false));
     CALLS.with(|c| c.set([0; NKINDS]));
     ARMED.with(|a| a.set(Some((kind, k))));
 }
@@ -61,6 +76,9 @@ pub fn fault_injected_total() -> u64 {
 
 #[inline]
 pub fn tick(kind: Kind) {
+    if PAUSED.with(|p| p.get()) {
+        return;
+    }
     let n = CALLS.with(|c| {
         let mut a = c.get();
         let n = a[kind as usize];
@@ -76,6 +94,7 @@ pub fn tick(kind: Kind) {
                 return;
             }
             ARMED.with(|a| a.set(None));
+            FIRED.with(|f| f.set(true));
             INJECTED.with(|c| c.set(c.get() + 1));
             panic!("injected fault: {:?}#{}", kind, n);
         }
